@@ -72,6 +72,9 @@ def gen_rt(base, name, opts):
                   {"decl": "void fillValues(int *values +intent(out)+dimension(3))",
                    "options": {"C_force_wrapper": True}, "fstatements": {"c": {"return_type": "long", "ret": ["return 3;"]}}}]
         protos += ["int *countValues(int *nvalues);", "double *countItems(int *nitems);", "void fillValues(int *values);"]
+        # a parameter that is an array of pointers (pointer and sized array declarator together) is a `T **`
+        decls += [{"decl": "double rowsum(double *rows[3], int n)"}, {"decl": "void rowfill(int *rows[2], int v)"}]
+        protos += ["double rowsum(double *rows[3], int n);", "void rowfill(int *rows[2], int v);"]
         protos += ["struct Rec1 { " + " ".join("%s f%d;" % (t, i) for i, t in enumerate(mtypes)) + " int arr[3]; char name[8]; double *ptr; };",
                    "typedef struct Rec1 Rec1;",
                    "struct Rec2 { int count; double weight; long total; float ratio; unsigned int flags; short tail; };", "typedef struct Rec2 Rec2;",
